@@ -63,7 +63,8 @@ Record req := mkReq {
   q_hdrs : hdrs;         (* canonical keys, Host removed *)
   q_body : str;
   q_remote_ip : str;
-  q_uuid : str           (* the next minted request id *)
+  q_uuid : str;          (* the next minted request id *)
+  q_badhosts : list str  (* hosts net/url refuses to parse (oracle computed by the harness with net/url alone) *)
 }.
 
 Record resp := mkResp { rs_status : Z; rs_hdrs : hdrs; rs_body : str }.
@@ -94,10 +95,9 @@ Definition s_cfip : str := bytes "cf-connecting-ip"%string.
 Definition s_xrealip : str := bytes "X-Real-Ip"%string.
 Definition s_xff : str := bytes "X-Forwarded-For"%string.
 
-(* None = panic in DropPort *)
-Definition request_ip (h : hdrs) (remote : str) : option str :=
+Definition request_ip (h : hdrs) (remote : str) : str :=
   let cf := hget h s_cfip in
-  if nonempty cf then Some cf else
+  if nonempty cf then cf else
   let real := trim_space (hget h s_xrealip) in
   if nonempty real then drop_port real else
   let xff := hget h s_xff in
@@ -107,10 +107,10 @@ Definition request_ip (h : hdrs) (remote : str) : option str :=
 
 (* ---------- ensureInternalHeaders ---------- *)
 
-Inductive ei_result := EiOk (h : hdrs) | Ei407 | EiPanic.
+Inductive ei_result := EiOk (h : hdrs) | Ei407 | EiPanic.   (* EiPanic: secrets[0] on an empty non-nil list *)
 
 Definition ensure_internal (h : hdrs) (pass : bool) (secrets : list str)
-           (ip : option str) (uuid : str) : ei_result :=
+           (ip : str) (uuid : str) : ei_result :=
   let old_secret := hget h hdr_secret in
   if nonempty old_secret && negb (str_in secrets old_secret) then Ei407 else
   if pass then
@@ -118,13 +118,11 @@ Definition ensure_internal (h : hdrs) (pass : bool) (secrets : list str)
     let old_ip := hget h hdr_orig_ip in
     if nonempty old_secret then
       let h1 := if nonempty old_id then h else hset h hdr_req_id uuid in
-      if nonempty old_ip then EiOk h1
-      else match ip with Some a => EiOk (hset h1 hdr_orig_ip a) | None => EiPanic end
+      if nonempty old_ip then EiOk h1 else EiOk (hset h1 hdr_orig_ip ip)
     else if nonempty old_id || nonempty old_ip then Ei407
-    else match ip, secrets with
-         | Some a, s0 :: _ =>
-           EiOk (hset (hset (hset h hdr_req_id uuid) hdr_orig_ip a) hdr_secret s0)
-         | _, _ => EiPanic
+    else match secrets with
+         | s0 :: _ => EiOk (hset (hset (hset h hdr_req_id uuid) hdr_orig_ip ip) hdr_secret s0)
+         | [] => EiPanic
          end
   else EiOk (hdel (hdel (hdel h hdr_secret) hdr_req_id) hdr_orig_ip).
 
@@ -198,9 +196,8 @@ Fixpoint route_request (fuel : nat) (c : cfg) (rs : list rule) (q : req) (body :
   match fuel with
   | O => mkRouteOut sc log (inr EOutOfFuel)
   | S fuel' =>
-  match drop_port (q_host q) with
-  | None => mkRouteOut sc log (inr EPanic)
-  | Some host =>
+  let host := drop_port (q_host q) in
+  if str_in (q_badhosts q) host then mkRouteOut sc log (inr E500) else
   let scheme := req_scheme (q_tls q) (hget (q_hdrs q) (bytes "X-Forwarded-Proto"%string)) in
   let '(pm, cm) := rules_match rs scheme host (q_uri q) (q_method q) in
   let rule := match pm with Some (_, r, _) => Some r | None => fallback end in
@@ -235,24 +232,19 @@ Fixpoint route_request (fuel : nat) (c : cfg) (rs : list rule) (q : req) (body :
   match copy with
   | inr e => mkRouteOut sc log (inr e)
   | inl copy =>
-  let two := match main, copy with Some _, Some _ => true | _, _ => false end in
-  let can_retry := retryable (q_method q) in
-  let buffered := two || can_retry in
   let retry_rule := match main with Some (r, _) => r_retry r | None => None end in
   let retry_allowed := match retry_rule with None => true | Some _ => false end in
   (* copy first; its outcome is only logged *)
-  let '(sc1, log1, copy_read) :=
+  let '(sc1, log1) :=
       match copy with
-      | None => (sc, log, false)
-      | Some d => let '(s', l', _) := perform_request c sc (with_body d body) retry_allowed log in
-                  (s', l', true)
+      | None => (sc, log)
+      | Some d => let '(s', l', _) := perform_request c sc (with_body d body) retry_allowed log in (s', l')
       end in
-  (* without buffering a second reader of req.Body sees what the first left: nothing *)
-  let main_body := if buffered then body else if copy_read then [] else body in
+  (* the body is buffered whenever two requests are built (two = true), so each reader sees all of it *)
   match main with
   | None => mkRouteOut sc1 log1 (inr E404)
   | Some (r, d) =>
-    let '(sc2, log2, res) := perform_request c sc1 (with_body d main_body) retry_allowed log1 in
+    let '(sc2, log2, res) := perform_request c sc1 (with_body d body) retry_allowed log1 in
     let redirect := match res with
                     | Some rp => if is_redirect (rs_status rp) then Some (hget (rs_hdrs rp) s_location) else None
                     | None => None
@@ -264,12 +256,12 @@ Fixpoint route_request (fuel : nat) (c : cfg) (rs : list rule) (q : req) (body :
                 end in
     match fall with
     | Some rr =>
-      (* the recursion re-reads req.Body, which has been consumed *)
-      route_request fuel' c [rr] q [] None None sc2 log2
+      (* a retry rule implies buffering, and req.Body is re-armed with the buffered bytes *)
+      route_request fuel' c [rr] q body None None sc2 log2
     | None =>
       match res with
       | None => mkRouteOut sc2 log2 (inr E502)
       | Some rp => mkRouteOut sc2 log2 (inl (mkRouteOk rp r (d_url d) redirect))
       end
     end
-  end end end end end.
+  end end end end.
